@@ -102,7 +102,7 @@ def run(ctx, res, cases=None):
         forced = {c[0].name: (c[1], c[2]) for c in cases}
     items, stats = pvptgrt.prepare(ctx, res, PROP, progs, ctx.quick)
     ncfg = 5 if ctx.quick else 24
-    work = []
+    groups = []
     for k, (p, g, b, exe) in enumerate(items):
         cfgs = configs(ctx, rng.fork(1000 + k), ncfg)
         if ctx.quick:
@@ -112,8 +112,8 @@ def run(ctx, res, cases=None):
             if fb and fb != b:
                 continue
             cfgs = [fc] + cfgs[:2]
-        for cfg in cfgs:
-            work.append((p, g, b, exe, cfg))
+        groups.append([(p, g, b, exe, cfg) for cfg in cfgs])
+    work = pvptgrt.interleave(groups)      # first configuration of every (program, globals, back-end), then the second, ...
     if ctx.quick and len(work) > 48:
         work = work[:48]
     results = pvptgrt.sweep(ctx, res, PROP, work, evaluate)
